@@ -32,6 +32,10 @@ func NewRetryHandler(discoveryService ports.DiscoveryService, logger logger.Styl
 	}
 }
 
+// ErrCircuitBreakerOpen is returned by a proxy implementation that refused to contact an
+// endpoint because its circuit breaker is open. The retry handler treats it as a skip.
+var ErrCircuitBreakerOpen = errors.New("circuit breaker open")
+
 // ProxyFunc defines the signature for endpoint proxy implementations
 type ProxyFunc func(ctx context.Context, w http.ResponseWriter, r *http.Request, endpoint *domain.Endpoint, stats *ports.RequestStats) error
 
@@ -89,6 +93,13 @@ func (h *RetryHandler) ExecuteWithRetry(
 		if tw.started {
 			// The client already has the status line (and possibly body bytes) from this attempt
 			return lastErr
+		}
+
+		if errors.Is(lastErr, ErrCircuitBreakerOpen) {
+			// The endpoint was skipped, not tried: it stays as healthy as it was and the
+			// request moves on to the remaining candidates
+			availableEndpoints = h.removeFailedEndpoint(availableEndpoints, endpoint)
+			continue
 		}
 
 		if !IsConnectionError(lastErr) {
